@@ -716,7 +716,7 @@ def gen_stmt(g, env, depth, nstmts, a, in_loop=False):
     elif c == 'base':
         # any other statement kind of the base generator (select, where, one-line if, ...), without associates inside
         sub = dict(g.p, max_depth=min(g.p['max_depth'], depth + 1))
-        return [no_alias_overlap(env, a, st_) for st_ in B.gen_stmt(B.G(g.draw, sub), env, depth, 2, in_loop=False)]
+        return [no_alias_overlap(env, a, st_, True) for st_ in B.gen_stmt(B.G(g.draw, sub), env, depth, 2, in_loop=False)]
     if r is None:
         r = B.gen_assign(g, env)
     if r is None:
@@ -724,8 +724,10 @@ def gen_stmt(g, env, depth, nstmts, a, in_loop=False):
     return [no_alias_overlap(env, a, r)]
 
 
-def no_alias_overlap(env, a, stmt):
-    if a.adepth and stmt[0] not in ('assoc', 'do', 'if') and alias_overlap(env, stmt):
+def no_alias_overlap(env, a, stmt, whole=False):
+    # whole=True: a (possibly compound) statement of the base generator, no ASSOCIATE inside: judged as a whole;
+    # the DO/IF constructs of this module are judged statement by statement while their bodies are generated
+    if a.adepth and (whole or stmt[0] not in ('assoc', 'do', 'if')) and alias_overlap(env, stmt):
         a.avoided.append('ref:gfortran-misses-overlap-through-associate-name')
         return ['comment', ' (statement with overlapping aliases not generated)']
     return stmt
